@@ -155,7 +155,9 @@ GradArrives(p) ==
 
 ZeroGrad(m) ==
   /\ "zero" \in Acts /\ CanAct /\ m \in Mods
-  /\ pgrad' = [p \in Params |-> IF p \in PSet(m) /\ prg[p] THEN "zero" ELSE pgrad[p]]
+  \* every reachable parameter is reset: the trainable ones, and frozen ones that still hold a gradient from before
+  \* they were frozen (a frozen parameter that never had a gradient does not acquire one: C07)
+  /\ pgrad' = [p \in Params |-> IF p \in PSet(m) /\ (prg[p] \/ pgrad[p] # "none") THEN "zero" ELSE pgrad[p]]
   /\ UNCHANGED <<mods, prg, nseq>>
   /\ last' = "zero"
   /\ hist' = Rec([a |-> "zero_grad", m |-> m])
